@@ -42,6 +42,17 @@ def run(ctx):
             camp.sh.maybe_flush()
             if i < 3:
                 ctx.sample({"program": prog})
+        # every input up to 4 bytes over {0, 1, 255} under pads whose head, tail and whole differ
+        for pad in ([b"\x00\x01", b"\x01\x00\x00", b"\x00\x00\x00", b"\x00\x00", b"\xff"] if quick else
+                    [b"\x00\x01", b"\x01\x00\x00", b"\x00\x00\x00", b"\x00\x00", b"\xff", b"\x00", b"\x01\x00", b"\x00\x01\x00", b"\x00\x01\x00\x01"]):
+            for inner in (A.GreedyBytes, A.GreedyRange(A.Alias("Byte"))):
+                prog = A.NullStripped(inner, pad=pad)
+                con = campaign.realizable(prog)
+                for n in range(0, 5 if quick else 6):
+                    for t in __import__("itertools").product((0, 1, 255), repeat=n):
+                        camp.parse(prog, con, bytes(t), 0, {}, tag="pad")
+                        nt += 1
+                camp.sh.maybe_flush()
         # spec -> code: every session TLC explores on the delimiter part of the model's universe
         progs, kw, sessions, _ = speccode.explore(ctx, focus="C08", part=speccode.part_of(ctx, 24 if quick else 24))
         nt += speccode.drive(camp, progs, kw, sessions)
